@@ -44,6 +44,13 @@ class C01(C03):
     extended_cases = 2500
     fail_text = {2: 'the bonds created for a base edge are not exactly the cut bonds',
                  9: 'implementation raised an unexpected exception in the bonding step',
+                 201: 'bonding step: a bond joins fragments of coarse nodes that are not joined by a base-graph edge',
+                 202: 'bonding step: more bonds than the base edge order',
+                 203: 'bonding step: bonded descriptor pair is not compatible',
+                 204: 'bonding step: wrong bond order',
+                 205: 'bonding step: a descriptor was used for more bonds than it was written',
+                 206: 'bonding step: fewer bonds than the edge order although a compatible pair was left',
+                 209: 'bonding step: the implementation raised an unexpected exception',
                  101: 'resolved molecule differs from the original molecule (elements, charges, bond orders, H counts)',
                  102: 'resolving the uncut molecule as a single fragment differs from the original molecule',
                  103: 'resolver raised an exception on a valid cut string'}
@@ -91,6 +98,11 @@ class C01(C03):
         """[(a, b, [(u, d, v, t)])] with a,b coarse keys as the base graph numbers them and u,v the
         fine keys at bonding time; None when the generator did not record the cut geometry"""
         return case.get('cutinfo')
+
+    def python_oracle(self, case, impl):
+        # only used when the Coq side cannot be built: the C03 clauses on the bonding step
+        code = C03.python_oracle(self, dict(case, legacy=case.get('legacy', True)), impl['bonding'])
+        return 200 + code if code else 0
 
     def extra_fail(self, case, impl):
         if impl['s'] is True and impl['single'] is True:
